@@ -38,6 +38,15 @@ Definition p_line : parser c04case :=
   else (fun _ => None).
 
 (* ---------- tolerances ---------- *)
+(* The tolerance for T, tau = tr |T| + tr with tr = 1e-9 + 2^-46 n kappa, does NOT grow with mu0, and need not:
+   the code forms (mean - mu0) sqrt(n) / s AFTER computing the mean and s of the untouched data (differences).
+     - the subtraction mean - mu0 is one rounding: absolute error <= ulp53 (|mean| + |mu0|), i.e. a relative error
+       of T of ulp53 (|mean| + |mu0|) / |mean - mu0|: about one ulp when |mu0| >> |mean| (T is then huge but
+       relatively exact), and when mu0 is next to the mean (T next to 0) an ABSOLUTE error of T of
+       ulp53 * 2|mean| sqrt(n)/s <= 4 ulp53 n max|d| / (max d - min d) = 4 ulp53 n cond(d) < 2^-46 n kappa <= tr;
+     - the rounding of the mean and of s is what kappa (the conditioning of the data, not of mu0) accounts for.
+   So a T that is off by more than 1e-9 relative for a large mu0 (e.g. because mu0 was subtracted from every
+   value BEFORE the mean and the variance were taken, which rounds the data to ulp(mu0)) is a mismatch. *)
 (* conditioning of a sample for mean/variance in floating point: max|x| / (max - min); 0 for a constant sample *)
 Definition cond (xs : list Q) : Q :=
   match xs with
